@@ -264,6 +264,60 @@ pub fn c11(ctx: &mut Ctx, acc: &mut Acc) -> i32 {
     0
 }
 
+/// Totals beyond 2^32 bytes with every single length far below the format's limits: a codec that writes one static
+/// 1 MiB block n times, through a size-calculating context and through a user-defined output that only counts
+/// (nothing is stored, so this costs milliseconds).
+fn total_size_beyond_4_gib(acc: &mut Acc) {
+    use desert::{BinaryOutput, BinarySerializer, SerializationContext, SizeCalculator};
+    static BLOCK: [u8; 1 << 20] = [0x5a; 1 << 20];
+    struct Repeat(u64);
+    impl BinarySerializer for Repeat {
+        fn serialize<O: BinaryOutput>(&self, c: &mut SerializationContext<O>) -> desert::Result<()> {
+            for _ in 0..self.0 {
+                c.write_bytes(&BLOCK);
+            }
+            c.write_u8(7);
+            Ok(())
+        }
+    }
+    #[derive(Default)]
+    struct Counting(u64);
+    impl BinaryOutput for Counting {
+        fn write_u8(&mut self, _v: u8) {
+            self.0 += 1;
+        }
+        fn write_bytes(&mut self, b: &[u8]) {
+            self.0 += b.len() as u64;
+        }
+    }
+    for blocks in [2047u64, 2048, 4095, 4096, 4097, 8192, 12_289] {
+        let want = blocks * (1 << 20) + 1;
+        acc.case(Some(want));
+        let (r, _) = sbase::monitored(None, || {
+            let mut a = SerializationContext::new(SizeCalculator::new());
+            Repeat(blocks).serialize(&mut a).map_err(|e| sbase::classify(&e))?;
+            let mut b = SerializationContext::new(Counting::default());
+            Repeat(blocks).serialize(&mut b).map_err(|e| sbase::classify(&e))?;
+            Ok((a.into_output().size() as u64, b.into_output().0))
+        });
+        match r {
+            Call::Ok((calc, counted)) if calc == want && counted == want => acc.count("totals_beyond_2_pow_32_exact"),
+            other => acc.violation(
+                format!("C15|size_calculator|total_of_{blocks}_MiB"),
+                J::obj()
+                    .with("check", J::s("C15"))
+                    .with("mode", J::s("content"))
+                    .with("what", J::s("SizeCalculator / counting output over a stream of n x 1 MiB + 1 bytes"))
+                    .with("expected", J::u(want))
+                    .with("got", J::s(match &other {
+                        Call::Ok((a, b)) => format!("size calculator {a}, counting output {b}"),
+                        o => o.class(),
+                    })),
+            ),
+        }
+    }
+}
+
 pub fn c15(ctx: &mut Ctx, acc: &mut Acc) -> i32 {
     if ctx.extra.get("only").is_none() {
         crate::rt::big_values(ctx, acc, "C15");
@@ -321,6 +375,9 @@ pub fn c15(ctx: &mut Ctx, acc: &mut Acc) -> i32 {
             }
         }
         acc.count("types");
+    }
+    if ctx.shard == 0 && !ctx.only_fresh() {
+        total_size_beyond_4_gib(acc);
     }
     // the three inputs, result by result — ordinary and hostile read sequences
     let rounds = ctx.n(200_000, 2_000_000);
